@@ -290,16 +290,24 @@ func waitScripts(m *Meta, tier string, rng *rand.Rand, out string) {
 	// WAIT released by cancellation / deadline
 	// a busy source (an event that does not pass the filter is always queued): TIMEOUT, a deadline and
 	// a cancel must still release the pending WAITFOR promptly, with an error
-	for fi, how := range []string{"timeout", "deadline", "cancel"} {
+	// (the "-quiet-suppressed" variants: no event at all, and the WAITFOR wrapped in an error-suppressing
+	// (...)? as the last thing evaluated — a cut-short wait is still an error of the run)
+	for fi, how := range []string{"timeout", "deadline", "cancel", "deadline-quiet-suppressed", "cancel-quiet-suppressed", "cancel-quiet-suppressed-nofilter"} {
 		wg.Add(1)
 		go func(fi int, how string) {
 			defer wg.Done()
-			obs := &fakeObs{flood: true}
+			obs := &fakeObs{flood: !strings.Contains(how, "quiet")}
 			c := compiler.New()
 			Must(c.RegisterFunction("OBS", func(context.Context, ...core.Value) (core.Value, error) { return obs, nil }))
 			q := `LET o = OBS() LET e = (WAITFOR EVENT "x" IN o FILTER CURRENT > 5 TIMEOUT 5000) RETURN e`
+			if strings.Contains(how, "suppressed") {
+				q = `LET o = OBS() RETURN (WAITFOR EVENT "x" IN o FILTER CURRENT > 5 TIMEOUT 5000)?`
+				if strings.Contains(how, "nofilter") {
+					q = `LET o = OBS() RETURN (WAITFOR EVENT "x" IN o TIMEOUT 5000)?`
+				}
+			}
 			ctx, cancel := context.WithCancel(context.Background())
-			switch how {
+			switch strings.SplitN(how, "-", 2)[0] {
 			case "timeout":
 				q = `LET o = OBS() LET e = (WAITFOR EVENT "x" IN o FILTER CURRENT > 5 TIMEOUT 100) RETURN e`
 			case "deadline":
